@@ -602,6 +602,9 @@ func (f *frame) step(ins ssa.Instruction, b *ssa.BasicBlock, in map[*ssa.BasicBl
 		if _, isMap := x.X.Type().Underlying().(*types.Map); !isMap {
 			return false, unsupported("range over a string")
 		}
+		if tc := f.topContract(); tc == nil || !tc.MapRange {
+			return false, unsupported("range over map or string")
+		}
 		// range over a map: the iterator is just the map; every Next yields an ARBITRARY entry of it (any
 		// order, any number of iterations) - an over-approximation that is sound for everything proved about
 		// the loop body (no panic, invariants), and says nothing about which entries were visited
@@ -622,6 +625,9 @@ func (f *frame) step(ins ssa.Instruction, b *ssa.BasicBlock, in map[*ssa.BasicBl
 	case *ssa.Next:
 		if x.IsString {
 			return false, unsupported("range over a string")
+		}
+		if tc := f.topContract(); tc == nil || !tc.MapRange {
+			return false, unsupported("range over map or string")
 		}
 		rg, ok := x.Iter.(*ssa.Range)
 		if !ok {
